@@ -38,13 +38,14 @@ def routing(p):
     if not finds:
         raise ShapeUnrecognised("Log::enabled: no local lookup applied to Metadata::target")
     r["find"] = p.fn(finds[0][1])
-    ll = p.fn(LOG_LOG)
+    ll = p.fn_loops(LOG_LOG)      # iterator-adaptor spellings of the loops are analysed as the loops they denote
+    r["log_log"] = ll
     cands = [c for c in ll.calls() if c.callee in p.fns and any(strip(a) == ("param", 2) for a in c.arg_exprs())
              and c.callee != r["find"].path]
     if len(cands) != 1:
         raise ShapeUnrecognised("Log::log: expected one local delivery call taking the record, found %d" % len(cands))
     r["node_log_site"] = cands[0]
-    r["node_log"] = p.fn(cands[0].callee)
+    r["node_log"] = p.fn_loops(cands[0].callee)
     nl = r["node_log"]
     dl = [c for c in nl.calls() if c.callee in p.fns and nl.in_loop(c.block)]
     if len(dl) != 1:
@@ -55,7 +56,7 @@ def routing(p):
     mret = ml.local_expr(0)
     if mret[0] != "call" or mret[1] not in p.fns:
         raise ShapeUnrecognised("Logger::max_log_level does not return a local function's result")
-    r["max_level"] = p.fn(mret[1])
+    r["max_level"] = p.fn_loops(mret[1])
     # snapshot constructor: the function that builds the snapshot aggregate (type behind Logger's Arc<ArcSwap<..>>)
     import re as _re
     lg = p.adt("Logger")
